@@ -568,7 +568,8 @@ class PSBTView:
         # one output on the same index, others are empty
         elif sh == SIGHASH.SINGLE:
             h.update(compact.to_bytes(input_index + 1))
-            empty = TransactionOutput(0xFFFFFFFF, Script(b"")).serialize()
+            # blank outputs have value -1 (see CTxOut::SetNull in Bitcoin Core)
+            empty = TransactionOutput(0xFFFFFFFFFFFFFFFF, Script(b"")).serialize()
             # this way we commit to input index
             for i in range(input_index):
                 h.update(empty)
